@@ -158,6 +158,7 @@ def run(chk):
                           "a `f!(..)` call can be compiled without ProgramInfo.fallible becoming true", detail=d)
 
     rule_r02d(chk)
+    rule_r02e(chk)
 
 
 OP_TYPE_INFO = "<compiler::expression::op::Op as compiler::expression::Expression>::type_info"
@@ -234,3 +235,64 @@ def rule_r02d(chk):
                           "fails at run time (%d operand-kind configurations affected)" % (
                               {"Add": "+", "Sub": "-", "Mul": "*", "Div": "/", "Gt": ">", "Ge": ">=", "Lt": "<", "Le": "<=", "And": "&&"}[opc],
                               "|".join(kl), "|".join(kr), mname, a, c, len(bad)), detail=d)
+
+
+def rule_r02e(chk):
+    """an operand that is always evaluated passes its fallibility on to the operator's type"""
+    import tinfo
+    facts = chk.facts
+    rid = "R02e"
+    chk.rule(rid, "Op::type_info: a fallible operand that is always evaluated makes the operation fallible (also with a constant divisor)", floor=13)
+    if not facts.has(OP_TYPE_INFO):
+        chk.fail_closed(rid, "anchor not found: %s" % OP_TYPE_INFO)
+        return
+    always_lhs = ["Add", "Sub", "Mul", "Div", "Gt", "Ge", "Lt", "Le", "Eq", "Ne", "And", "Or", "Merge"]
+    always_rhs = {"Add", "Sub", "Mul", "Div", "Gt", "Ge", "Lt", "Le", "Eq", "Ne", "Merge"}
+    sym = {"Add": "+", "Sub": "-", "Mul": "*", "Div": "/", "Gt": ">", "Ge": ">=", "Lt": "<", "Le": "<=", "And": "&&", "Or": "||", "Eq": "==", "Ne": "!=", "Merge": "|"}
+    two = tinfo.Enum("std::option::Option", "Some", {"0": tinfo.Enum("value::value::Value", "Integer", {"0": 2})})
+    fam = kind_family()
+    for opc in always_lhs:
+        bad = []
+        n = 0
+        undecided = None
+        for kl in fam:
+            for kr in fam:
+                for side in ("lhs", "rhs"):
+                    if side == "rhs" and opc not in always_rhs:
+                        continue
+                    const_opts = [None]
+                    if opc == "Div" and side == "lhs" and kr == frozenset(["integer"]):
+                        const_opts.append({"rhs": two})
+                    for consts in const_opts:
+                        selfv = tinfo.Enum("compiler::expression::op::Op", None, {"lhs": tinfo.boxed(tinfo.Expr("lhs")), "rhs": tinfo.boxed(tinfo.Expr("rhs")),
+                                                                                   "opcode": tinfo.Enum("parser::ast::Opcode", opc)})
+                        try:
+                            td, it = tinfo.evaluate_type_info(facts, OP_TYPE_INFO, selfv,
+                                                              {"lhs": tinfo.TD(kl, side == "lhs"), "rhs": tinfo.TD(kr, side == "rhs")}, consts)
+                        except tinfo.Undecided as e:
+                            undecided = str(e)
+                            break
+                        n += 1
+                        if not td.fallible:
+                            bad.append((len(kl) + len(kr), sorted(kl), sorted(kr), side, bool(consts)))
+                    if undecided:
+                        break
+                if undecided:
+                    break
+            if undecided:
+                break
+        d = {"opcode": opc, "configurations_evaluated": n, "fallibility_dropped": len(bad)}
+        if undecided:
+            chk.instance(rid, d, ok=None)
+            chk.fail_closed(rid, "Op::type_info could not be evaluated abstractly for `%s`: %s" % (opc, undecided))
+            continue
+        chk.instance(rid, d, ok=not bad)
+        if bad:
+            bad.sort()
+            _, kl, kr, side, withc = bad[0]
+            d["first"] = {"lhs_kind": kl, "rhs_kind": kr, "fallible_operand": side, "constant_divisor": withc}
+            chk.violation(rid, "src/compiler/expression/op.rs", OP_TYPE_INFO, "opcode %s drops the fallibility of its %s operand" % (opc, side),
+                          "`a %s b` with a fallible %s operand of kind %s%s is typed infallible although that operand is always evaluated: its error is "
+                          "neither handled nor reported (e.g. `to_int(.x) / 2` compiles without `!` and fails at run time); %d operand configurations affected"
+                          % (sym[opc], "left" if side == "lhs" else "right", "|".join(kl if side == "lhs" else kr),
+                             " and a non-zero literal divisor" if withc else "", len(bad)), detail=d)
